@@ -412,6 +412,9 @@ func ruleF4(c *an.Ctx) {
 			if strings.HasSuffix(p2, "split_metadata") || strings.HasSuffix(p2, "join_metadata") {
 				nStub++
 				g, w := an.GuardedBy(in, notSplit)
+				if !g && guardedAtAllCalls(p, fn, notSplit, 0) {
+					g = true // a helper that writes the stub, called only where the stage does not split
+				}
 				c.Check("F4", key+":stub-only-for-non-splitting", in.Pos(), g,
 					"a split/join phase may be stubbed complete by mrp only for stages that do not split; "+c.WitnessString(w))
 				return
